@@ -25,6 +25,8 @@ pub struct Outcome {
     pub invalid: Option<String>,
     pub execs: u64,
     pub events: u64,
+    /// simulated nanoseconds covered by the worlds of this case
+    pub sim_ns: u64,
     /// hashes of distinct non-trivial runs found in this case (rule per property)
     pub nontrivial: Vec<u64>,
     pub faults: BTreeMap<String, u64>,
@@ -55,6 +57,8 @@ impl Outcome {
     pub fn absorb(&mut self, label: &str, res: &WorldResult, want_trace: bool) {
         self.execs += 1;
         self.events += res.log.len() as u64;
+        self.sim_ns += res.clock_ns;
+        self.fault("virtual_sleep", res.sleeps);
         let mut eintr = 0;
         let mut eio = 0;
         let mut short = 0;
